@@ -1487,6 +1487,9 @@ impl CodegenContext {
                 match ctx.evaluate_expression(expr, false) {
                     Ok(result) => {
                         if result.is_some() {
+                            // It is defined, so what is mentioned here is a usage like any other (for rename, find
+                            // references, ...). When it isn't, it must not be reported as an unknown identifier.
+                            let _ = ctx.evaluate_expression(expr, true);
                             Ok(Some(1.into()))
                         } else {
                             Ok(Some(0.into()))
